@@ -59,7 +59,7 @@ structure SimVariant where
   setSizeEvent : Bool := false
   lastColClean : Bool := false
   combElide : Bool := false
-  fillZW : Bool := false        -- CellBuffer.Fill stores width 0 for a zero-width rune (fixes/C09-fill-zero-width.patch)
+  fillZW : Bool := false        -- CellBuffer.Fill stores a blank for a zero-width rune (fixes/C09-fill-zero-width.patch)
 deriving DecidableEq, Repr, Inhabited
 
 def SimVariant.pinned : SimVariant := {}
